@@ -190,6 +190,56 @@ def corpus() -> List[dict]:
     return out
 
 
+def matrix_projects() -> List[dict]:
+    """Systematic small domain: definer location x consumer location x import form x re-export x order."""
+    base_mods = {'dtop': False, 'pk': True, 'pk.dm': False, 'pk.sub': True, 'pk.sub.dd': False,
+                 'ctop': False, 'pk.cm': False, 'pk.sub.cs': False, 'pk2': True, 'pk2.x': False}
+    definers = ['dtop', 'pk.dm', 'pk.sub.dd', 'pk', 'pk.sub']
+    consumers = ['ctop', 'pk.cm', 'pk.sub.cs', 'pk', 'pk2']
+    out = []
+    for D in definers:
+        for C in consumers:
+            if C == D or D.startswith(C + '.') and False:
+                continue
+            if C == 'pk' and not D.startswith('pk.'):
+                pass
+            forms = []
+            forms.append(('from_abs', [['from', 0, D, [['Foo', None]]]], 'Foo'))
+            forms.append(('from_as', [['from', 0, D, [['Foo', 'Bar']]]], 'Bar'))
+            pkC = C if base_mods[C] else (C.rsplit('.', 1)[0] if '.' in C else '')
+            if pkC:
+                Pp, T = pkC.split('.'), D.split('.')
+                common = 0
+                while common < len(Pp) and common < len(T) and Pp[common] == T[common]:
+                    common += 1
+                for keep in range(1, common + 1):
+                    level = len(Pp) - keep + 1
+                    forms.append(('from_rel_%d' % level, [['from', level, '.'.join(T[keep:]), [['Foo', 'R%d' % level]]]], 'R%d' % level))
+            forms.append(('import_as', [['import', D, 'al']], 'al.Foo'))
+            forms.append(('import_plain', [['import', D, None]], D + '.Foo'))
+            if '.' in D:
+                par, short = D.rsplit('.', 1)
+                forms.append(('from_pkg_sub', [['from', 0, par, [[short, 'sm']]]], 'sm.Foo'))
+            for fname, stmts, expr in forms:
+                for rex in (False, True):
+                    for rev in (False, True):
+                        mods = {n: M(n, [], pkg) for n, pkg in base_mods.items()}
+                        mods[D]['body'].append(['class', 'Foo', None, [['def', 'meth'], ['class', 'Inner', None, []]]])
+                        body = mods[C]['body']
+                        body.extend([list(x) for x in stmts])
+                        body.append(['class', 'K', expr, [['def', 'own']]])
+                        body.append(['alias', 'z', expr])
+                        body.append(['alias', 'zm', expr + '.meth'])
+                        body.append(['class', 'W', None, [['alias', 'y', expr], ['class', 'V', 'z', []]]])
+                        if rex:
+                            mods['rex'] = M('rex', [['from', 0, D, [['Foo', 'Pub']]]], False, ['Pub'])
+                        names = sorted(mods)
+                        order = names[::-1] if rev else None
+                        out.append({'tag': 'matrix-%s-%s-%s-%s%s' % (D, C, fname, 'rex' if rex else 'plain', '-rev' if rev else ''),
+                                    'modules': [mods[n] for n in names], 'order': order})
+    return out
+
+
 def relative_project() -> dict:
     """every level 1..5 x {no module name, one component} from a package and a module at depths 1..3 (model vs pydoctor only:
     most of these do not import under CPython)."""
@@ -488,6 +538,10 @@ class Check(PropertyCheck):
         out = self.relative_sweep()
         cor = corpus()
         out.extend(self.run_projects(cor))
+        mat = matrix_projects()
+        self.stats['matrix_projects'] = len(mat)
+        out.extend(self.run_projects(mat))
+        self.exhaustive = True      # the matrix (definer x consumer x import form x re-export x order) and the relative-level grid are complete
         n = 300 if self.tier == 'quick' else 10000
         self.stats['random_projects'] = n
         self.stats['corpus_projects'] = len(cor) + 1
@@ -495,7 +549,6 @@ class Check(PropertyCheck):
         for s in range(0, n, step):
             out.extend(self.run_projects(self.projects(min(step, n - s), seed_salt=1 + s // step)))
         self.stats['distinct_nontrivial'] = len(self.nontrivial)
-        self.exhaustive = False
         # spec-validation failures are broken checks: they go to `broken` through kind != 'oracle'
         return out
 
